@@ -1,5 +1,5 @@
 (* C15 - semantic tokens are well-formed and agree with lexical class and binding kind.
-   Statements only; every proof is `exact <lemma>` (Proofs/SemTokProofs.v).  The theorems are about
+   Statements only; every proof is `exact <lemma>` (Proofs/SemTokProofs.v, SemTokNames.v, SemTokValid.v).  The theorems are about
    the model Model/SemTok.v of lsp4spl/src/features/semantic_tokens.rs (as of /repo e4d8780:
    identifiers in type expressions of a procedure are looked up globally; the tokens behind the
    last declaration are walked too); [doc_wf_b] is the explicit, executable well-formedness
@@ -18,18 +18,27 @@
    every output of `lex`, the ordering part of the tree half for every output of `parse`;
    build/analyze keep offsets and ranges, so for every document produced by AnalyzedSource::new
    [doc_wf_b] reduces to [decls_names_b] (C15_new_doc_wf), declarations and trailing slice tile
-   the token vector (C15_new_doc_covered), hence EVERY keyword / number / comment token of the
-   document is in the answer with its class (C15_new_doc_stream, C15_lexical_reported_everywhere
-   = part (a) of [C15_full_statement], with or without diagnostics).
-   NOT proved (validated on every generated document by the judge's wf flag): that declaration names
-   end with identifier tokens ([decls_names_b]) for parser outputs.  NOT proved: part (b) of
-   [C15_full_statement], the classification of identifiers by binding kind; it is stated on the
+   the token vector (C15_new_doc_covered).  The remaining condition [decls_names_b] - the name of
+   a global declaration ends with an identifier token - is proved for every output of `parse`, for
+   ALL token lists, valid program or not (Proofs/SemTokNames.v: `ident` builds its node from an
+   `Ident` token, comments and keyword in front of it keep the reference position, the offset of a
+   top-level Reference is its absolute start): C15_new_doc_names.  Hence EVERY document of
+   AnalyzedSource::new satisfies [doc_wf_b] (C15_new_doc_wf_total), all theorems above apply to it
+   without hypothesis, and EVERY keyword / number / comment token of the document is in the answer
+   with its class (C15_new_doc_stream_total, C15_lexical_reported_everywhere_total = part (a) of
+   [C15_full_statement], with or without diagnostics; C15_new_doc_stream and
+   C15_lexical_reported_everywhere are the older versions that carry [decls_names_b] as a
+   hypothesis).
+   NOT proved for arbitrary documents: part (b) of
+   [C15_full_statement], the classification of identifiers by binding kind (proved for every valid
+   program: C15_valid); it is stated on the
    model and validated by oracle only (the former refutation, C15_full_statement_refuted on the
    witness `type t = int; proc p(t: t) { } proc main() { }`, is gone with the repair b909979: the
    witness now evaluates to the demanded stream, C15_example_type_use / _int_hidden / _trailing). *)
 From Coq Require Import Sorting.Sorted.
 From Spl Require Import Model.SemTok Proofs.SemTokProofs Proofs.ParserTotal.
 From Spl Require Import Proofs.GrammarProofs Spec.Typing Proofs.TypingProofs Proofs.HoverProofs Proofs.SemTokValid.
+From Spl Require Import Proofs.SemTokNames.
 
 Theorem C15_no_panic : forall d, doc_wf_b d = true -> exists data, semantic_tokens d = SOk data.
 Proof. exact semtok_no_panic. Qed.
@@ -113,6 +122,38 @@ Theorem C15_lexical_reported_everywhere : forall t d data,
 Proof. exact new_doc_complete. Qed.
 Print Assumptions C15_lexical_reported_everywhere.
 
+(* ---- the condition on declaration names holds for every parser output, so the hypotheses above
+   are void for the documents the server holds ---- *)
+Theorem C15_new_doc_names : forall t d,
+  new_doc t = Done d -> decls_names_b (d_toks d) (pg_decls (d_ast d)) = true.
+Proof. exact new_doc_names. Qed.
+Print Assumptions C15_new_doc_names.
+
+Theorem C15_new_doc_wf_total : forall t d, new_doc t = Done d -> doc_wf_b d = true.
+Proof. exact new_doc_wf_total. Qed.
+Print Assumptions C15_new_doc_wf_total.
+
+(* for every text: *)
+Theorem C15_new_doc_stream_total : forall t d,
+  new_doc t = Done d ->
+  exists data,
+    semantic_tokens d = SOk data /\
+    decode data = map (tok_view t) (emitted d) /\
+    Subseq (map fst (emitted d)) (d_toks d) /\
+    StronglySorted (fun a b => pos_lt (at_pos a) (at_pos b)) (decode data) /\
+    Forall lex_ok (emitted d) /\
+    (forall j k c, nth_error (d_toks d) j = Some k -> map_class (tk k) = Some c -> In (k, c) (emitted d)).
+Proof. exact new_doc_stream_total. Qed.
+Print Assumptions C15_new_doc_stream_total.
+
+(* part (a) of C15_full_statement, without any hypothesis on the document *)
+Theorem C15_lexical_reported_everywhere_total : forall t d data,
+  new_doc t = Done d -> semantic_tokens d = SOk data ->
+  forall j k c, nth_error (d_toks d) j = Some k -> map_class (tk k) = Some c ->
+                In (tok_view (d_text d) (k, c)) (decode data).
+Proof. exact new_doc_complete_total. Qed.
+Print Assumptions C15_lexical_reported_everywhere_total.
+
 (* ---- the binding half, PROVED for every valid program in every layout ----
    p ranges over the abstract programs of the grammar, G over the global tables the declarative static
    semantics accepts for the mandated tree, t over the texts that lex to p's token kinds (all layouts of
@@ -151,7 +192,7 @@ Print Assumptions C15_valid.
    the declaration modifier, type position, variable position resolved in the procedure's own local
    table, callee) with that class.  With C15_coincide / C15_increasing / C15_lexical_class (nothing
    else is reported, in text order) this pins the whole answer.
-   NOT PROVED as a whole: (a) is C15_lexical_reported_everywhere; (b) is validated only - the check
+   NOT PROVED as a whole: (a) is C15_lexical_reported_everywhere_total; (b) is validated only - the check
    decides both parts for every generated well-typed program (judge command 50), in agreement with
    the independent python oracle, and found no counterexample on the repaired code. *)
 Definition C15_full_statement : Prop :=
